@@ -21,6 +21,9 @@ BODIES = [
     (["  nop", "  .dseg", "  .byte 2", "  .cseg", "  ldi r16, @0", "  ret"], ["e8"]),
     (["  .eseg", "  .db @0", "  .cseg", "  nop"], ["e8"]),
     (["  nop"], []),
+    ([".ifdef @0", "  .dw 1", ".else", "  .dw 2", ".endif"], ["flag"]),
+    ([".ifndef @0", "  .dw @1", ".endif", "  nop"], ["flag", "e"]),
+    (["  .dw @0 + 1"], ["sym"]),
     (["  .dq @0, @1, @2, @3, @4, @5, @6, @7, @8, @9"], ["e"] * 10),
 ]
 REGS = ["r0", "r7", "r15", "r16", "r20", "r31"]
@@ -35,6 +38,11 @@ def arg(rng, kind):
         return rng.choice(["X", "X+", "-X", "Y+", "-Y", "Z", "z+", "-Z", "Y"])
     if kind == "xq":
         return rng.choice(["Y", "Z"]) + "+" + str(rng.randrange(0, 64))
+    if kind == "flag":
+        # preprocessor flags are matched as written: the argument must arrive in the body with its letter case intact
+        return rng.choice(["FlagA", "flaga", "FLAGA", "Flag_b", "flag_B", "NoSuchFlag"])
+    if kind == "sym":
+        return rng.choice(["Beta", "BETA", "alpha", "Alpha", "gamma_1"])
     t = c14.etree(rng, rng.choice([0, 1, 2, 3]))
     text = c14.render_expr(t, 0, c14.Plain())
     if kind == "e8":
@@ -61,7 +69,7 @@ def gen_case(rng):
             kinds = inner[2]
             macs.append(("outer", ["  nop", "  %s %s" % (inner[0].lower(), ", ".join("@%d" % j for j in range(len(kinds)))), "  nop"], kinds))
     defs, calls, expanded = [], [], []
-    prelude = [".equ alpha = 5", ".equ Beta = 300", ".equ gamma_1 = 0"]
+    prelude = [".equ alpha = 5", ".equ Beta = 300", ".equ gamma_1 = 0", ".define FlagA", ".define Flag_b"]
     for name, body, kinds in macs:
         defs += [".macro %s" % name] + body + [rng.choice([".endmacro", ".endm"])]
 
